@@ -16,7 +16,7 @@ Open Scope Z_scope.
 """
 
 BITS = {'outcome': 1, 'dates': 2, 'rows': 4, 'c03': 8, 'c04': 16, 'c02': 32, 'c07': 64, 'c08': 128,
-        'c09': 256, 'c06': 512, 'crash': 1024, 'model_oracle': 2048}
+        'c09': 256, 'c06': 512, 'crash': 1024, 'model_oracle': 2048, 'illformed': 4096}
 
 
 # ---------- calendars on the dyadic grid --------------------------------------------------------------
@@ -326,11 +326,16 @@ def run_property(ctx, pid, fail_bits, mismatch_bits, dirs=('fwd', 'bwd'), extra=
     while len(cases) < n_corpus + n:
         cases.append(gen_case(ctx.rng, None if len(dirs) == 2 else dirs[0]))
     outs, kept, codes = evaluate(ctx, cases)
-    dist = {'offgrid_discarded': len(cases) - len(kept), 'returned': 0, 'runtime_error': 0, 'crash': 0}
+    dist = {'offgrid_discarded': len(cases) - len(kept), 'illformed_discarded': 0, 'returned': 0, 'runtime_error': 0, 'crash': 0}
     feats = {}
     distinct = set()
     exact_disagree = 0
     for (case, out), code in zip(kept, codes):
+        if code & BITS['illformed']:
+            # the WBS that was built does not satisfy the graph invariant (C01's business): outside the
+            # domain of the scheduler theorems, discarded and counted
+            dist['illformed_discarded'] += 1
+            continue
         oc = out['outcome']
         dist['returned' if oc == 0 else 'runtime_error' if oc == 1 else 'crash'] += 1
         fs = classify(case, out)
